@@ -14,3 +14,8 @@ package replayfilter
 //@   requires f != nil
 //@   modifies f.*
 //@   ensures f.ntests == old(f.ntests) + 1 && f.lasttested == seq(buf) && f.lastseen == seen
+
+//@ func New(ttl) (filter, err)
+//@   serves C11 C04
+//@   nobody the internals (container/list, map) are the subject of C11; callers only need a fresh filter
+//@   ensures (err == nil) == (filter != nil) && (err == nil ==> fresh(filter) && filter.ntests == 0)
